@@ -461,6 +461,17 @@ Probe(a, mode) ==
   /\ obs' = [a |-> a, arg |-> IF a = "copy" THEN [mode |-> mode] ELSE [x |-> 0],
              exp |-> LET e == den IN IF e.ret = "ok" THEN [ret |-> "ok", lay |-> e.lay, items |-> e.items, graphs |-> e.graphs]
                                              ELSE [ret |-> "failed"]]
+(* a node that carries an item instance instead of a value (add_items hands the instance to the group): *)
+(* the loaded layout gains that item, named like the node, at the end                                   *)
+InstName == <<113, 49>>       \* q1
+Inst ==
+  LET k == IF cnt.secs % 2 = 0 THEN "axis" ELSE "world" IN
+  /\ Len(stack) = 1 /\ cnt.secs > 0 /\ den.ret = "ok"
+  /\ UNCHANGED <<stack, text, heap, cnt, den>>
+  /\ obs' = [a |-> "inst", arg |-> [kind |-> k, name |-> InstName],
+             exp |-> [ret |-> "ok", lay |-> den.lay, graphs |-> den.graphs,
+                      items |-> Append(den.items, [name |-> L!RLE(InstName), kind |-> k, p |-> AllView1(k, Def1T[k]),
+                                                   items |-> <<>>, axes |-> <<>>, worlds |-> <<>>])]]
 (* the C path on the same text *)
 CLoad ==
   /\ Len(stack) = 1 /\ cnt.secs > 0
@@ -482,7 +493,8 @@ OkName(nm) == CT!NameOK(CT!B(nm), OptFlags) /\ CT!NameLex(FF, CT!B(nm))
 (* export runs: the full alphabet (every property x every text value class x spelling) is offered for the    *)
 (* first option of the first section(s) of a description, a medium one (every property x three values) in   *)
 (* the next section; later options and sections come from the small alphabet                                *)
-Level == CASE Mode = "gen"  -> (IF cnt.opts = 0 /\ cnt.secs = 1 THEN 2 ELSE IF cnt.opts = 0 /\ cnt.secs = 2 THEN 1 ELSE 0)
+Level == CASE Mode = "gen"  -> (IF cnt.opts = 0 /\ cnt.secs = 1 THEN 2
+                                ELSE IF cnt.opts = 0 /\ cnt.secs = 2 /\ (Len(stack) = 3 \/ stack[Len(stack)].h.par # <<>>) THEN 1 ELSE 0)
            [] Mode = "gent" -> (IF cnt.opts <= 1 /\ cnt.secs <= 2 THEN 2 ELSE IF cnt.opts <= 1 /\ cnt.secs = 3 THEN 1 ELSE 0)
            [] OTHER -> 0
 FullHere == Level > 0
@@ -512,7 +524,7 @@ FullHdr == Mode \in {"gen", "gent"} /\ cnt.secs <= (IF Mode = "gent" THEN 2 ELSE
 ItemNames == IF FullHdr THEN {NM_a, NM_b, NM_w, NM_a1} ELSE {NM_a, NM_b}
 KindWords == IF FullHdr THEN {KW_axis, KW_xaxis, KW_yaxis, KW_zaxis, KW_world, KW_graph, KW_text, KW_line, KW_legend, KW_Axis}
              ELSE IF Mode = "mc" THEN (IF MaxSecs <= 3 THEN {KW_axis, KW_world, KW_graph, KW_legend} ELSE {KW_axis, KW_world, KW_graph, KW_text, KW_legend})
-             ELSE {KW_axis, KW_world, KW_graph, KW_text, KW_line}
+             ELSE IF Mode = "gen" THEN {KW_axis, KW_world, KW_graph} ELSE {KW_axis, KW_world, KW_graph, KW_text, KW_line}
 ParChoices == {<<>>} \cup {<<n>> : n \in ItemNames} \cup (IF FullHdr THEN {<<NM_a, NM_b>>, <<NM_b, NM_a>>} ELSE {})
 Headers == {Hdr(kw, nm, par) : kw \in KindWords, nm \in ItemNames, par \in ParChoices}
 
@@ -528,7 +540,9 @@ Build ==
   \/ \E nm \in ResetChoices(TopKind) : AddReset(nm, DecoPick(Len(nm)))
   \/ \E h \in Headers : OpenSection(h, DecoPick(Len(h.kw) + Len(h.par) + h.name[Len(h.name)]))
   \/ CloseSection(DecoPick(cnt.secs + cnt.opts))
-Next == Build \/ (\E m \in CopyModes : Probe("copy", m)) \/ Probe("dump", "") \/ CLoad
+\* quick export: one copy mode per description (all four in the other modes)
+CopyPick == IF Mode = "gen" THEN {<<"clone", "null", "empty", "props">>[((cnt.secs + cnt.opts) % 4) + 1]} ELSE CopyModes
+Next == Build \/ (\E m \in CopyPick : Probe("copy", m)) \/ Probe("dump", "") \/ CLoad \/ Inst
 Spec == Init /\ [][Next]_vars
 
 ---------------------------------------------------------------------------
